@@ -4,7 +4,7 @@ from .. import samcommon, varcommon
 
 def run(ctx):
     ctx.rule = varcommon.RULE
-    varcommon.run(ctx, ["C11-"])
+    varcommon.run(ctx, ["C11-"], rand_n=40 if ctx.quick else 800)
     samcommon.run_blocks(ctx, "C11-", 100 if ctx.quick else 1500)      # multi-record SAM blocks through sam variants
     ctx.assumptions = ["annotation consistent with the genome: every CDS ends in a stop codon of the reference, GenBank /translation and GFF phases are "
                        "computed from the same layout (GFF3 phase semantics)",
